@@ -27,6 +27,7 @@ func C08(c *core.Ctx) {
 	for _, cfg := range []gen.Config{d, sized} {
 		ms := enumMembers(c.Tier, cfg)
 		ms = append(ms, member{name: "enum lookalike values", cfg: cfg, root: place(&fam.Spec{Kind: "any", Enum: "lookalike"}, "required")})
+		ms = append(ms, member{name: "enum values that normalise to one identifier", cfg: cfg, root: place(&fam.Spec{Kind: "string", Enum: "collide"}, "required")})
 		for _, mb := range ms {
 			runMember(c, mb, rules, 64, func(w *fam.World, fm *fam.FileModel) []fam.Issue {
 				var out []fam.Issue
